@@ -152,7 +152,11 @@ Definition reviewed_hook_registrations : list site := [
 ].
 
 (* ---------------------------------------------------------------------------------------------- *)
-(* app/app.go.                                                                                       *)
+(* app/app.go.  Argument texts are written with simple locals of New RESOLVED (one level of constant
+   propagation by the translator: a local defined once by `x := expr`, never reassigned, address never
+   taken, is shown as expr wherever it is a whole call argument — e.g. appCodec =
+   codec.NewProtoCodec(interfaceRegistry), govAuthority = authtypes.NewModuleAddress(govtypes.ModuleName).String()),
+   so introducing or inlining such a local does not change a fact.                                    *)
 Definition reviewed_wiring : list fact := [
   (* module account permissions (map literal; sorted by key, .perms is parallel to .keys) *)
   ("macc_perms.keys", ["attributetypes.ModuleName"; "authtypes.FeeCollectorName"; "distrtypes.ModuleName";
@@ -186,25 +190,25 @@ Definition reviewed_wiring : list fact := [
   (* constructor calls of the registering keepers *)
   ("ctor.x/marker/keeper.params", ["cdc"; "key"; "authKeeper"; "bankKeeper"; "authzKeeper"; "feegrantKeeper"; "attrKeeper";
      "nameKeeper"; "ibcTransferServer"; "reqAttrBypassAddrs"; "checker"]);
-  ("ctor.x/marker/keeper.args", ["appCodec"; "keys[markertypes.StoreKey]"; "app.AccountKeeper"; "app.BankKeeper";
+  ("ctor.x/marker/keeper.args", ["codec.NewProtoCodec(interfaceRegistry)"; "keys[markertypes.StoreKey]"; "app.AccountKeeper"; "app.BankKeeper";
      "app.AuthzKeeper"; "app.FeeGrantKeeper"; "app.AttributeKeeper"; "app.NameKeeper"; "app.TransferKeeper";
      "markerReqAttrBypassAddrs"; "NewGroupCheckerFunc(app.GroupKeeper)"]);
   ("ctor.x/marker/keeper.assigned_to", ["app.MarkerKeeper"]);
   ("ctor.x/hold/keeper.params", ["cdc"; "storeKey"; "bankKeeper"]);
-  ("ctor.x/hold/keeper.args", ["appCodec"; "keys[hold.StoreKey]"; "app.BankKeeper"]);
+  ("ctor.x/hold/keeper.args", ["codec.NewProtoCodec(interfaceRegistry)"; "keys[hold.StoreKey]"; "app.BankKeeper"]);
   ("ctor.x/hold/keeper.assigned_to", ["app.HoldKeeper"]);
   ("ctor.x/sanction/keeper.params", ["cdc"; "storeKey"; "bankKeeper"; "govKeeper"; "authority"; "unsanctionableAddrs"]);
-  ("ctor.x/sanction/keeper.args", ["appCodec"; "keys[sanction.StoreKey]"; "app.BankKeeper"; "&app.GovKeeper"; "govAuthority";
+  ("ctor.x/sanction/keeper.args", ["codec.NewProtoCodec(interfaceRegistry)"; "keys[sanction.StoreKey]"; "app.BankKeeper"; "&app.GovKeeper"; "authtypes.NewModuleAddress(govtypes.ModuleName).String()";
      "unsanctionableAddrs"]);
   ("ctor.x/sanction/keeper.assigned_to", ["app.SanctionKeeper"]);
   ("ctor.x/quarantine/keeper.params", ["cdc"; "storeKey"; "bankKeeper"; "fundsHolder"]);
-  ("ctor.x/quarantine/keeper.args", ["appCodec"; "keys[quarantine.StoreKey]"; "app.BankKeeper";
+  ("ctor.x/quarantine/keeper.args", ["codec.NewProtoCodec(interfaceRegistry)"; "keys[quarantine.StoreKey]"; "app.BankKeeper";
      "authtypes.NewModuleAddress(quarantine.ModuleName)"]);
   ("ctor.x/quarantine/keeper.assigned_to", ["app.QuarantineKeeper"]);
   (* the bank keeper: blocked addresses = every module account of maccPerms *)
   ("ctor.bank.func", ["bankkeeper.NewBaseKeeper"]);
-  ("ctor.bank.args", ["appCodec"; "runtime.NewKVStoreService(keys[banktypes.StoreKey])"; "app.AccountKeeper";
-     "app.ModuleAccountAddrs()"; "govAuthority"; "logger"]);
+  ("ctor.bank.args", ["codec.NewProtoCodec(interfaceRegistry)"; "runtime.NewKVStoreService(keys[banktypes.StoreKey])"; "app.AccountKeeper";
+     "app.ModuleAccountAddrs()"; "authtypes.NewModuleAddress(govtypes.ModuleName).String()"; "logger"]);
   (* addresses exempt from the marker REQUIRED-ATTRIBUTES check (not from transfer permission): fee
      collector, quarantine holder, gov deposits, distribution, bonded / not-bonded pools *)
   ("marker_req_attr_bypass_addrs.init", ["literal"]);
@@ -224,7 +228,7 @@ Definition reviewed_wiring : list fact := [
   ("unsanctionable_addrs.passed_to", ["sanctionkeeper.NewKeeper:unsanctionableAddrs -> app.SanctionKeeper"]);
   ("unsanctionable_addrs.other_statements", []);
   (* hooks: the sanction keeper is the (only) gov hook, set on the gov keeper that becomes app.GovKeeper *)
-  ("hooks.set", ["app.StakingKeeper <- stakingtypes.NewMultiStakingHooks(restrictHooks, app.DistrKeeper.Hooks(), app.SlashingKeeper.Hooks())";
+  ("hooks.set", ["app.StakingKeeper <- stakingtypes.NewMultiStakingHooks(piohandlers.NewStakingRestrictionHooks(app.StakingKeeper, *piohandlers.DefaultRestrictionOptions), app.DistrKeeper.Hooks(), app.SlashingKeeper.Hooks())";
      "govKeeper <- govtypes.NewMultiGovHooks(app.SanctionKeeper)"]);
   ("gov_hooks", ["app.SanctionKeeper"]);
   ("gov_hooks.on", ["govKeeper -> app.GovKeeper"]);
